@@ -572,14 +572,20 @@ pub fn family_globs(rng: &mut Rng) -> Vec<String> {
 
 pub fn run(ctx: &Ctx) -> Report {
     let thorough = ctx.is_thorough();
-    let (max_tokens, ntok, path_len) = if thorough { (4, 16, 6) } else { (3, 16, 5) };
+    let (max_tokens, ntok, path_len) = if cfg!(miri) {
+        (2, 16, 2)
+    } else if thorough {
+        (4, 16, 6)
+    } else {
+        (3, 16, 5)
+    };
     let globs = enumerate_globs(max_tokens, ntok);
     let paths = all_paths(path_len);
     // blocks of 8 globs; each block is one case
     let block = 8usize;
     let nblocks = (globs.len() + block - 1) / block;
     let n = (nblocks * 4) as f64 * ctx.scale;
-    let n = n.ceil() as usize;
+    let n = ctx.cases_override.unwrap_or(n.ceil() as usize);
     let mut total = crate::par_cases(ctx, 12, n, |rng, i, rep| {
         let optbits = match i % 4 {
             0 => 0,
@@ -628,7 +634,7 @@ pub fn run(ctx: &Ctx) -> Report {
             // all paths up to length 4 + a random quarter of the rest
             paths.iter().filter(|p| p.len() <= 4 || rng.chance(1, 4)).cloned().collect()
         };
-        for _ in 0..40 {
+        for _ in 0..(if cfg!(miri) { 2 } else { 40 }) {
             ps.push(random_path(rng));
         }
         check_block(&comp, &ps, true, rep);
